@@ -67,7 +67,9 @@ def generate(seed, tier, index):
             steps.append(reg())
         elif r < 0.2 and ncb:
             steps.append({"op": "rm_uuid", "id": rng.randrange(ncb)})
-        elif r < 0.26:
+        elif r < 0.24 and ncb:
+            steps.append({"op": "rm_callback", "id": rng.randrange(ncb)})
+        elif r < 0.3:
             steps.append({"op": "rm_criteria", "device": rng.choice([None, "DA", "DB"]), "vector": rng.choice([None, None, "P1"]),
                           "element": rng.choice([None, None, "E1"]), "type": rng.choice([None, None, "Value", "Base"])})
         steps.append({"op": "msg", "spec": s, "style": library_style() if rng.random() < 0.5 else rand_style(rng)})
@@ -165,24 +167,31 @@ def execute(scen):
 
         world.after_apply = after
 
-        def make_cb(cid, kind):
-            rec = cbs[cid]
+        class Recorder:
+            """Callbacks are bound methods: `rec.plain` evaluated twice gives two equal but not identical objects,
+            which is how applications usually pass callbacks to onevent / rmonevent(callback=...)."""
 
-            def log(ev):
+            def __init__(self, cid):
+                self.cid = cid
+
+            def _log(self, ev):
+                rec = cbs[self.cid]
                 keep.append(ev)
                 rec["log"].append((event_tuple(ev), rec["removed_at"] is not None))
 
-            if kind == "coro":
-                async def cb(ev):
-                    log(ev)
-            elif kind == "raising":
-                def cb(ev):
-                    log(ev)
-                    raise RuntimeError("callback failure injected")
-            else:
-                def cb(ev):
-                    log(ev)
-            return cb
+            def plain(self, ev):
+                self._log(ev)
+
+            async def coro(self, ev):
+                self._log(ev)
+
+            def raising(self, ev):
+                self._log(ev)
+                raise RuntimeError("callback failure injected")
+
+        def make_cb(cid, kind):
+            cbs[cid]["recorder"] = Recorder(cid)
+            return getattr(cbs[cid]["recorder"], kind)
 
         seen_msg = False
         for st in scen["steps"]:
@@ -218,6 +227,14 @@ def execute(scen):
                 sim.do(lambda: client.rmonevent(uuid=c["uuid"]))
                 c["removed_at"] = msg_index[0]
                 probes["removed_by_uuid"] = probes.get("removed_by_uuid", 0) + 1
+            elif op == "rm_callback":
+                c = cbs.get(st["id"])
+                if c is None or c["removed_at"] is not None:
+                    continue
+                fresh = getattr(c["recorder"], c["kind"])  # a new bound-method object, equal to the registered one
+                sim.do(lambda: client.rmonevent(callback=fresh))
+                c["removed_at"] = msg_index[0]
+                probes["removed_by_callback"] = probes.get("removed_by_callback", 0) + 1
             elif op == "rm_criteria":
                 kw = {}
                 for k in ("device", "vector", "element"):
